@@ -50,6 +50,18 @@ def run(ctx):
     o2, steps2 = through(tr, {'k': 'copy', 'l': final_l, 'p': []}) if final_l is not None else (o, [])
     red = o2 if o2['o'] == 'call' else o
     is_max = red['o'] == 'call' and call_matches(red['term'], 'ParallelIterator::max')
+    if not is_max and red['o'] == 'call' and call_matches(red['term'], 'ParallelIterator::max_by') and len(red['term']['args']) > 1:
+        # max_by(|a, b| a.cmp(b)) is the same reduction
+        co = tr.origin(red['term']['args'][1])
+        cb = None
+        if co['o'] == 'rvalue' and co['rv'].get('agg') == 'closure':
+            cb = f.body(co['rv']['closure']) or f.bodies.get('bin::' + co['rv']['closure'])
+        if cb is not None:
+            tcb = Tracer(cb)
+            calls = list(cb.calls())
+            if len(calls) == 1 and call_matches(calls[0][1], 'Ord>::cmp', 'Ord::cmp') and calls[0][1]['dest']['l'] == 0:
+                a0, a1 = tcb.origin(calls[0][1]['args'][0]), tcb.origin(calls[0][1]['args'][1])
+                is_max = a0['o'] == 'arg' and a1['o'] == 'arg' and a0['l'] == 2 and a1['l'] == 3
     rep.check(is_max, 'R1', 'written-state-is-the-max', where(b, red.get('bb', ser[0][0])),
               'serialised value <- %s <- ParallelIterator::max' % ' <- '.join(steps + steps2),
               'the serialised value is not the result of ParallelIterator::max over the replicas (it comes from %s)'
